@@ -142,6 +142,8 @@ def finish (st : St') (out : Out) (implAnswer implDump : String) : St' × String
       | some f =>
         (st2, s!"KNOWN[{out.failTag.getD (failId f)}] bookkeeping invariant broken by a step outside the guard ({repr f})")
       | none => (st2, "JUDGE C32 bookkeeping invariant broken by a guarded step: running placement off a registered worker, or assigned/count mismatch")
+    else if st.book && !st.prevInv && !inv && bookInvB out.model then
+      (st2, "JUDGE C32 this call restores the bookkeeping invariant in the model (e.g. reconcile after a re-registration) but the implementation's state is still inconsistent")
     else (st2, verdict modelLine implLine)
 
 def availIn (s : St) (id : WId) : Bool := s.workers.any fun w => w.id == id && w.isAvailable
